@@ -202,7 +202,7 @@ Theorem GS_mux_step m o : GS m -> GS (fst (mux_step m o)).
 Proof.
   apply (T_mux_step GS).
   - intros; assumption.
-  - intros m' d ntp [H0 H]. split; [exact H0|]. unfold createFirstSegment. cbn [set_stream m_cfg m_streams].
+  - intros m' d ntp ti0 t0 _ _ [H0 H]. split; [exact H0|]. unfold createFirstSegment. cbn [set_stream m_cfg m_streams].
     apply Forall_map. eapply Forall_impl; [|exact H]. intros s [Ha Hb].
     split; unfold published, stream_createFirst; simpl; auto. intros g [= <-]. simpl. exact H0.
   - intros; now apply GS_rotp.
